@@ -21,7 +21,7 @@ NOT decided: that the sweep visits every bucket; chain contents over histories; 
 from .. import nw, typestate
 from ..facts import Prover, _k, strip_bitcasts
 from ..hashmodel import Roles, callgraph, reach, fld, is_load_of, hash_calls, at_subscripts
-from ..ir import const_int, resolve_addr, mem_access
+from ..ir import const_int, resolve_addr, mem_access, unit_step
 from .util import header_functions, floc
 
 KEYED = ('cstl_hash_insert', 'cstl_hash_find', 'cstl_hash_erase')
@@ -321,13 +321,11 @@ def check_count(m, f, entry, rule):
             return None
         if ins.op == 'store':
             if fld(f, ins) == 'count':
-                v = f.get(ins.o[0])
-                if v is not None and v.op == 'add' and is_load_of(f, v.o[0], 'count'):
-                    c = const_int(v.o[1])
-                    if c == 1:
+                base, step = unit_step(f, ins.o[0])
+                if step and is_load_of(f, base, 'count'):
+                    if step == 1:
                         return (min(inc + 1, 3), dec, link)
-                    if c == (1 << 64) - 1:
-                        return (inc, min(dec + 1, 3), link)
+                    return (inc, min(dec + 1, 3), link)
                 bad.add('the element count is written with a value that is not count +/- 1 at %s' % ins.loc())
             elif ins.srcfn == entry:
                 a = resolve_addr(f, ins.o[1])
@@ -413,6 +411,28 @@ def check_resize_order(m, f, rule):
                            'stay stale, and after the next resize dirty buckets look clean (elements become unreachable)' % s.loc())
     # new buckets: n = NULL and cst = table's (after the flip)
     n_init = cst_init = False
+    # look in resize itself and in internal helpers it calls after the flip (e.g. an extracted init loop)
+    helpers = []
+    for c in f.all_insts():
+        if c.op == 'call' and c.callee and any(f.dominates(x, c) for x in flips):
+            g = f.module.fn(c.callee)
+            if g is not None and not g.decl and g.linkage == 'internal':
+                helpers.append(g)
+    for g in helpers:
+        for s in g.all_insts():
+            if s.op != 'store':
+                continue
+            fl, a = bucket_field(g, s)
+            if fl == 'n' and a.idx and const_int(s.o[0]) == 0:
+                n_init = True
+            if fl == 'cst' and a.idx:
+                v = g.get(strip_bitcasts(g, s.o[0]))
+                while v is not None and v.op in ('zext', 'trunc'):
+                    v = g.get(v.o[0])
+                if v is not None and v.op == 'load' and fld(g, v) == 'bucket.cst':
+                    cst_init = True       # read inside a helper that only runs after the flip
+                else:
+                    bad.append('added buckets are stamped with a clean bit that is not the table\'s flipped one at %s' % s.loc())
     for s in f.all_insts():
         if s.op != 'store':
             continue
